@@ -102,7 +102,37 @@ def attack(h, res, budget):
                                       data, None, None, None))
             for what, data, exch, resp, mid in forgeries:
                 if len(data) >= 28 and data[18] == 34 and not (data[19] & 0x20):
-                    continue        # IKE_SA_INIT requests never reach an existing IKE_SA: the controller creates a fresh one (C16, C18)
+                    # IKE_SA_INIT requests never reach an existing IKE_SA through the controller (it creates a fresh responder:
+                    # C16, C18), so the guard of IkeSa.process_message for them is exercised by calling it directly: nothing may
+                    # change — liveness timer included — and the only reply allowed is the stored response for ID peer_msg_id - 1
+                    if sa not in ep.sas():
+                        break
+                    pre = CP.full_snapshot(ep)
+                    last = bytes(getattr(sa, 'last_sent_response_data', b'') or b'')
+                    pid = sa.peer_msg_id
+                    nl0 = len(ep.kernel.log)
+                    w.current = ep
+                    try:
+                        ret = sa.process_message(data)
+                    except Exception as ex:  # noqa
+                        ret = ('raised', type(ex).__name__)
+                    res.evaluations += 1
+                    res.count('direct:ike-sa-init-request')
+                    post = CP.full_snapshot(ep)
+                    i = ep.sas().index(sa) if sa in ep.sas() else None
+                    diff = [] if i is None else [(k, pre['sas'][i][k], post['sas'][i][k]) for k in pre['sas'][i]
+                                                  if pre['sas'][i][k] != post['sas'][i][k] and k not in ('last_resp',)][:4]
+                    allowed = (mid == pid - 1 and last and ret is not None and not isinstance(ret, tuple) and bytes(ret) == last)
+                    if diff or len(ep.kernel.log) != nl0 or (ret is not None and not allowed):
+                        eff = ('timer-only' if diff and all(d[0] == 'dpd_at' for d in diff) else 'state') if diff else 'reply'
+                        out.append(('forgery-effect:cleartext-exch34-request-to-keyed-ike-sa:%s' % eff,
+                                    '%s in state %s (%s): IkeSa.process_message(%s) -> %s, returned %s' % (
+                                        ep.name, state, role, what, diff or 'nothing changed',
+                                        'nothing' if ret is None else ('the stored response' if allowed else repr(ret)[:60])),
+                                    {'victim': ep.name, 'state': state, 'forgery': what, 'data': data.hex(), 'direct': True}))
+                        if len(out) > 30:
+                            return out
+                    continue
                 if sa not in ep.sas():
                     break
                 pre = CP.full_snapshot(ep)
